@@ -8,6 +8,9 @@ from .c01 import gen_cases
 from .. import timegen as tg
 
 
+MULTICAST = ("flatten", "groupby", "share")
+
+
 class C02(Prop):
     pid = "C02"
     lean_module = "RxModel.Props.C02"
@@ -49,11 +52,74 @@ class C02(Prop):
             fl = rng.choice(["local", "threads"])
             fields = ([("locktrace", ["1"])] if fl == "threads" else []) + [("pipe", [pipe])]
             out.append(Case("time", fl, fields, evs, {"kind": "time-" + mode, "cut": cut}))
+        # merge_all / group_by / share (theorems C02M_* over their own models): the histories of the C05 / C20 /
+        # C11 populations that unsubscribe somewhere; full lines compared from the first unsubscription on
+        import importlib
+        for name, cap in (("c05", 2500), ("c20", 2500), ("c11", 2500)):
+            try:
+                cs = importlib.import_module(f"vlib.props.{name}").PROP.cases("quick", seed)
+            except Exception as ex:            # pragma: no cover
+                print(f"note: C02 skips the {name} population: {ex}")
+                continue
+            cs = [c for c in cs if c.suite in MULTICAST and any(e[0] in ("unsub", "gunsub") for e in c.events)]
+            rng.shuffle(cs)
+            for c in cs[: cap if tier == "quick" else cap * 4]:
+                c.meta = {"kind": "multicast-" + name}
+                out.append(c)
         return out
+
+    def _multicast_oracle(self, case, lines):
+        """Nothing reaches a stream after ITS unsubscription has returned.  flatten: `unsub` silences the merged
+        stream; groupby: `unsub` silences everything, `gunsub k` group k (if the group existed by then — before
+        that there is no subscription to end: C02M_groupby_gunsub_statement is refuted by exactly that);
+        share: `unsub k` silences label k until a later `sub k` (histories where a label is re-used while held
+        are skipped: C02M_share_label_statement)."""
+        dead = set()
+        seen_groups = set()
+        held = set()
+        if case.suite == "share":
+            h = set()
+            for e in case.events:
+                if e[0] == "sub":
+                    if e[1] in h:
+                        return None
+                    h.add(e[1])
+                elif e[0] == "unsub":
+                    h.discard(e[1])
+        for k, e in enumerate(case.events):
+            b = lines.get(k)
+            if b is None:
+                continue
+            if b in ("PANIC", "RELOCK", "HANG"):
+                return None     # stuck merge_all: C05's finding
+            toks = []
+            if case.suite == "share":
+                if e[0] == "sub":
+                    dead.discard("s" + e[1])
+                if b.startswith("d="):
+                    toks = [("s" + t.partition(":")[0], t) for t in b[2:].split(" ")[0].split(";") if t]
+            elif b.startswith("o="):
+                body = b[2:].split(" ")[0] if case.suite == "groupby" else b[2:]
+                for t in body.split(";"):
+                    if not t:
+                        continue
+                    if case.suite == "groupby" and t[0] == "g":
+                        toks.append((t.partition(":")[0], t))
+                    else:
+                        toks.append(("outer", t))
+            for lab, t in toks:
+                if lab in dead or "*" in dead:
+                    return {"kind": "delivery-after-unsubscribe", "event": k, "detail": f"stream {lab}: {t} in {b}"}
+                seen_groups.add(lab)
+            if e[0] == "unsub":
+                dead.add("s" + e[1] if case.suite == "share" else "*")
+            elif e[0] == "gunsub" and ("g" + e[1]) in seen_groups:
+                dead.add("g" + e[1])
+        return None
 
     def _cut(self, case):
         for k, e in enumerate(case.events):
-            if e[0] == "unsub":
+            if e[0] in ("unsub", "gunsub"):
                 return k
         return len(case.events)
 
@@ -65,6 +131,8 @@ class C02(Prop):
         return strip_lock(body)
 
     def oracle(self, case, lines, model_lines=None):
+        if case.suite in MULTICAST:
+            return self._multicast_oracle(case, lines)
         # thread-safe form: unsubscribe() can only wait for a running task if the task body runs
         # inside the section of its handle's mutex (lock trace through hook H2)
         from .c19 import handle_section_failure
@@ -83,14 +151,25 @@ class C02(Prop):
         return None
 
     def nontrivial(self, case, lines):
+        if case.suite in MULTICAST:
+            return any(b.startswith(("o=", "d=")) and b[2:3] not in ("", " ") for b in lines.values())
         cut = self._cut(case)
         return any(not (lines.get(k, "o=") == "o=" or lines.get(k, "o=").startswith("o= ")) for k in range(cut))
 
     def shrink_candidates(self, case):
+        if case.suite in MULTICAST:
+            out = []
+            for i in range(len(case.events)):
+                c = case.copy()
+                del c.events[i]
+                out.append(c)
+            return out
         cands = tg.time_shrink(case) if case.suite == "time" else super().shrink_candidates(case)
         return [c for c in cands if any(e[0] == "unsub" for e in c.events)]
 
     def signature(self, case, failure):
+        if case.suite in MULTICAST:
+            return f"{failure['kind']}|{case.suite}"
         if case.suite != "time":
             return super().signature(case, failure)
         node, hs = case.field("pipe")[0], []
